@@ -15,7 +15,7 @@ import (
 	"github.com/whatap/golib/zzvf"
 )
 
-//vf: paths=50000
+// vf: paths=50000
 func ZZ_C02_EntryPoints() {
 	i1, i2 := zzvf.Int32(), zzvf.Int64()
 	s := zzvf.String(zzvf.Choose(3))
